@@ -10,6 +10,10 @@ def run(tier, seed):
         vocab.add_obligations(rep, "C10")
     except ImportError:
         pass
+    from ..propbase import deductive
+    R = "markdown_it.ruler.Ruler."
+    deductive(rep, "C10", [R + m for m in ("enable", "disable", "enableOnly", "at", "before", "after", "push", "__find__")], "contracts.ruler",
+              select=lambda q, ob, rel: ob.kind not in ("SAFE", "DEC"))
     cfgs = ["commonmark", "js-default", "zero", "cm-heading", "cm-code", "cm+table+strike", "cm+defs"]
     lines_universe(rep, "vf.oracles2:c10_vocab", tier, "MarkdownIt.parse", "token types subset of the vocabulary of the enabled rules (html tokens only with options.html)", cfgs=cfgs)
     lines_universe(rep, "vf.oracles2:c10_conservative", tier, "MarkdownIt.parse/render", "table/strikethrough conservative without trigger characters; inline_definitions/store_labels only add definition tokens and labels (tokens, env, HTML)",
